@@ -135,6 +135,16 @@ Proof.
   split; [ exact E | ]. unfold o_apply. rewrite E. reflexivity.
 Qed.
 
+Theorem oe_nonadmin_rejected_after_history' vr s cs c :
+  (match oc_op c with EMint _ _ _ | EPurge => False | _ => True end) ->
+  e_sender (oc_env c) <> o_admin s ->
+  ostep vr (orun vr s cs) (oc_env c) (oc_fp c) (oc_wv c) (oc_op c) = Err /\
+  o_apply vr (orun vr s cs) c = orun vr s cs.
+Proof.
+  intros Hop. apply oe_nonadmin_rejected_after_history.
+  destruct (oc_op c); try contradiction; reflexivity.
+Qed.
+
 (* base minter: both handlers compare the sender with the creator the collection answers *)
 Theorem base_only_creator s e creator bps o :
   creator <> Some (e_sender e) -> bstep s e creator bps o = Err.
@@ -269,7 +279,63 @@ Proof.
   rewrite IH. unfold gstep. destruct (step minter now op st) as [[st' ms]|] eqn:E; [ | reflexivity ].
   apply tm_admin_constant in E. destruct op; exact E.
 Qed.
+
+(* agreement with model/Auth.v *)
+Definition op_caller (o : tm_op) : N :=
+  match o with
+  | OReceive c _ _ _ _ | OMintTo c _ _ _ | OMintFor c _ _ _ | OShuffle c _ | OPurge c _
+  | OBurnRemaining c _ | OUpdStart c _ _ | OUpdLimit c _ _ => c
+  end.
+Definition kind_of (o : tm_op) : Auth.mkind :=
+  match o with
+  | OReceive _ _ _ _ _ => Auth.KReceiveNft | OMintTo _ _ _ _ => Auth.KMintTo | OMintFor _ _ _ _ => Auth.KMintFor
+  | OShuffle _ _ => Auth.KShuffle | OPurge _ _ => Auth.KPurge | OBurnRemaining _ _ => Auth.KBurnRemaining
+  | OUpdStart _ _ _ => Auth.KUpdateStartTime | OUpdLimit _ _ _ => Auth.KUpdatePerAddressLimit
+  end.
+
+Theorem tm_agrees minter now op st st' ms creator status params :
+  step minter now op st = Ok (st', ms) ->
+  Auth.minter_step Auth.FTokenMerge (Auth.mkMS (tm_admin st) creator status params) (op_caller op) (kind_of op)
+  = Ok (Auth.mkMS (tm_admin st') creator status params).
+Proof.
+  intros H. rewrite (tm_admin_constant _ _ _ _ _ _ H).
+  destruct (N.eq_dec (op_caller op) (tm_admin st)) as [Heq|Hne].
+  - unfold Auth.minter_step. cbn [Auth.m_admin]. rewrite Heq, N.eqb_refl. destruct op; reflexivity.
+  - destruct op; cbn [op_caller] in Hne; try reflexivity;
+      destruct (tm_nonadmin_rejected minter now st _ Hne) as (A & B & C & D & E);
+      rewrite ?A, ?B, ?C, ?D, ?E in H; discriminate.
+Qed.
 End FullTM.
+
+(* ====================================================================== *)
+(* vending minters (MinterVending.v): agreement of model/Auth.v with Part 1 *)
+(* ====================================================================== *)
+Module FullVending.
+Import MinterVending MinterVendingProofs AuthProofs.
+
+Definition kind_of (o : vop) : Auth.mkind :=
+  match o with
+  | OMint _ _ _ _ => Auth.KMint | OMintTo _ _ _ => Auth.KMintTo | OMintFor _ _ _ => Auth.KMintFor
+  | OPurge => Auth.KPurge | OShuffle _ => Auth.KShuffle | OBurnRemaining => Auth.KBurnRemaining
+  | OUpdateMintPrice _ => Auth.KUpdateMintPrice | OUpdateStartTime _ => Auth.KUpdateStartTime
+  | OUpdateStartTradingTime _ => Auth.KUpdateStartTradingTime
+  | OUpdatePerAddressLimit _ => Auth.KUpdatePerAddressLimit | OSetWhitelist _ _ _ => Auth.KSetWhitelist
+  | OUpdateDiscountPrice _ => Auth.KUpdateDiscountPrice | ORemoveDiscountPrice => Auth.KRemoveDiscountPrice
+  end.
+
+Theorem vending_agrees vr s e fp wv o s' ms creator status params :
+  step vr s e fp wv o = Ok (s', ms) ->
+  Auth.minter_step Auth.FVending (Auth.mkMS (s_admin s) creator status params) (e_sender e) (kind_of o)
+  = Ok (Auth.mkMS (s_admin s') creator status params).
+Proof.
+  intros H. rewrite (vending_admin_constant _ _ _ _ _ _ _ _ H).
+  destruct (N.eq_dec (e_sender e) (s_admin s)) as [Heq|Hne].
+  - unfold Auth.minter_step. cbn [Auth.m_admin]. rewrite Heq, N.eqb_refl. destruct o; reflexivity.
+  - destruct (admin_op o) eqn:Ho.
+    + rewrite (vending_admin_op_rejected _ _ _ _ _ _ Ho Hne) in H. discriminate.
+    + destruct o; try discriminate Ho; reflexivity.
+Qed.
+End FullVending.
 
 (* ====================================================================== *)
 (* collections (Collection.v: cw721-base + cw-ownable + sg721 + updatable + nt) *)
@@ -524,3 +590,398 @@ Proof.
     rewrite Hh. cbn. rewrite En. rewrite N.eqb_sym, Ec. reflexivity.
 Qed.
 End FullColl.
+
+(* ====================================================================== *)
+(* whitelists: plain / flex / Merkle (Wl.v)                                *)
+(* ====================================================================== *)
+Module FullWl.
+Import Wl.
+
+Section Oracle.
+Variable valid : addr -> bool.
+Variable self : addr.
+
+(* every membership / schedule handler needs an admin (IncreaseMemberLimit is open:
+   DESIGN §7 C05); UpdateAdmins and Freeze need can_modify = mutable && admin *)
+Theorem wl_admin_only e w :
+  is_admin (e_sender e) w = false ->
+  (forall t, exec valid self e (OUpdStart t) w = Err) /\
+  (forall t, exec valid self e (OUpdEnd t) w = Err) /\
+  (forall ms, exec valid self e (OAdd ms) w = Err) /\
+  (forall ms, exec valid self e (ORemove ms) w = Err) /\
+  (forall n, exec valid self e (OUpdPal n) w = Err) /\
+  (forall l, exec valid self e (OUpdAdmins l) w = Err) /\
+  exec valid self e OFreeze w = Err.
+Proof.
+  intros H. unfold exec, can_modify; cbv zeta. rewrite H, andb_false_r.
+  repeat split; intros; try reflexivity; destruct (w_kind w); reflexivity.
+Qed.
+
+Theorem wl_frozen_rejects e w :
+  w_mutable w = false ->
+  (forall l, exec valid self e (OUpdAdmins l) w = Err) /\ exec valid self e OFreeze w = Err.
+Proof. intros H. unfold exec, can_modify. rewrite H. split; intros; reflexivity. Qed.
+
+(* what a successful call does to the admin list and the flag *)
+Theorem wl_exec_admins e o w w' ms :
+  exec valid self e o w = Ok (w', ms) ->
+  match o with
+  | OUpdAdmins l => can_modify (e_sender e) w = true /\ w_admins w' = l /\ w_mutable w' = w_mutable w
+  | OFreeze => can_modify (e_sender e) w = true /\ w_admins w' = w_admins w /\ w_mutable w' = false
+  | _ => w_admins w' = w_admins w /\ w_mutable w' = w_mutable w
+  end /\ w_kind w' = w_kind w.
+Proof.
+  unfold exec; cbv zeta. intros H. destruct o.
+  - repeat step_hyp H. inv H. cbn. auto.
+  - repeat step_hyp H. inv H. cbn. auto.
+  - destruct (w_kind w) eqn:K; try discriminate H; repeat step_hyp H; inv H; cbn; auto.
+  - destruct (w_kind w) eqn:K; try discriminate H; repeat step_hyp H; inv H; cbn; auto.
+  - destruct (w_kind w) eqn:K; try discriminate H; repeat step_hyp H; inv H; cbn; auto.
+  - destruct (w_kind w) eqn:K; try discriminate H; repeat step_hyp H; inv H; cbn; auto.
+  - bind_in H u Hu. bind_in H u2 Hu2. inv H. cbn. unfold guard in Hu. destruct (can_modify (e_sender e) w); [ auto | discriminate ].
+  - bind_in H u Hu. inv H. cbn. unfold guard in Hu. destruct (can_modify (e_sender e) w); [ auto | discriminate ].
+Qed.
+
+(* once frozen, forever: no history changes the admin list or un-freezes it *)
+Theorem wl_frozen_forever h : forall w,
+  w_mutable w = false ->
+  w_admins (run valid self h w) = w_admins w /\ w_mutable (run valid self h w) = false.
+Proof.
+  induction h as [|[e o] h IH]; intros w Hm; cbn [run fold_left]; [ auto | ].
+  change (w_admins (run valid self h (step valid self w (e, o))) = w_admins w /\
+          w_mutable (run valid self h (step valid self w (e, o))) = false).
+  assert (S : w_admins (step valid self w (e, o)) = w_admins w /\ w_mutable (step valid self w (e, o)) = false).
+  { unfold step. cbn [fst snd]. destruct (exec valid self e o w) as [[w' ms]|] eqn:E; [ | auto ].
+    pose proof (wl_exec_admins _ _ _ _ _ E) as [F _].
+    destruct o; try (destruct F as [A B]; rewrite A, B; auto);
+      destruct F as [C _]; unfold can_modify in C; rewrite Hm in C; discriminate. }
+  destruct S as [SA SM]. destruct (IH _ SM) as [A B]. rewrite A, B, SA. auto.
+Qed.
+
+Theorem wl_frozen_statement h w :
+  w_mutable w = false ->
+  (forall e l, exec valid self e (OUpdAdmins l) w = Err) /\
+  (forall e, exec valid self e OFreeze w = Err) /\
+  w_admins (run valid self h w) = w_admins w /\ w_mutable (run valid self h w) = false.
+Proof.
+  intros H.
+  split; [ intros e l; exact (proj1 (wl_frozen_rejects e w H) l) | ].
+  split; [ intros e; exact (proj2 (wl_frozen_rejects e w H)) | ].
+  exact (wl_frozen_forever h w H).
+Qed.
+
+(* ---- agreement with model/Auth.v ---- *)
+Definition kind_abs (k : kind) : Auth.wlkind :=
+  match k with KPlain => Auth.WPlain | KFlex => Auth.WFlex | KMerkle => Auth.WMerkle end.
+Definition abs (w : wl) : Auth.wstate := Auth.mkWS (w_admins w) (w_mutable w).
+Definition msg_abs (o : op) : Auth.wmsg :=
+  match o with
+  | OUpdStart _ => Auth.WOp Auth.WUpdateStartTime
+  | OUpdEnd _ => Auth.WOp Auth.WUpdateEndTime
+  | OAdd _ => Auth.WOp Auth.WAddMembers
+  | ORemove _ => Auth.WOp Auth.WRemoveMembers
+  | OUpdPal _ => Auth.WOp Auth.WUpdatePerAddressLimit
+  | OIncrease _ => Auth.WOp Auth.WIncreaseMemberLimit
+  | OUpdAdmins l => Auth.WUpdateAdmins l
+  | OFreeze => Auth.WFreeze
+  end.
+
+Lemma is_admin_abs a w : Auth.is_admin (abs w) a = is_admin a w.
+Proof.
+  unfold Auth.is_admin, Auth.mem, is_admin, abs. cbn [Auth.w_admins].
+  induction (w_admins w) as [|x l IH]; cbn [existsb]; [ reflexivity | ]. rewrite IH, (N.eqb_sym x a). reflexivity.
+Qed.
+
+Lemma guard_true b u : guard b = Ok u -> b = true.
+Proof. destruct b; cbn; congruence. Qed.
+
+(* whatever the full handler accepts, Auth.v authorizes, with the same admin list and
+   flag afterwards; hence a sender Auth.v refuses is refused by the full handler *)
+Theorem wl_agrees e o w w' ms :
+  exec valid self e o w = Ok (w', ms) ->
+  Auth.wl_step (kind_abs (w_kind w)) (abs w) (e_sender e) (msg_abs o) = Ok (abs w').
+Proof.
+  intros H. pose proof (wl_exec_admins _ _ _ _ _ H) as [F K].
+  assert (Hadm : forall o', (match o' with OIncrease _ | OUpdAdmins _ | OFreeze => False | _ => True end) ->
+                 exec valid self e o' w = Ok (w', ms) -> is_admin (e_sender e) w = true).
+  { intros o' Ho' H'. destruct (is_admin (e_sender e) w) eqn:A; [ reflexivity | ].
+    destruct (wl_admin_only e w A) as (A1 & A2 & A3 & A4 & A5 & _).
+    destruct o'; try contradiction; rewrite ?A1, ?A2, ?A3, ?A4, ?A5 in H'; discriminate. }
+  unfold Auth.wl_step, Auth.can_modify. rewrite !is_admin_abs. unfold abs. cbn [Auth.w_mutable Auth.w_admins].
+  destruct o as [t|t|ms0|ms0|n|n|l|]; cbn [msg_abs].
+  - rewrite (Hadm (OUpdStart t) I H). destruct F as [A B]. rewrite A, B. destruct (w_kind w); reflexivity.
+  - rewrite (Hadm (OUpdEnd t) I H). destruct F as [A B]. rewrite A, B. destruct (w_kind w); reflexivity.
+  - rewrite (Hadm (OAdd ms0) I H). destruct F as [A B]. rewrite A, B.
+    unfold exec in H; cbv zeta in H. destruct (w_kind w); try discriminate H; reflexivity.
+  - rewrite (Hadm (ORemove ms0) I H). destruct F as [A B]. rewrite A, B.
+    unfold exec in H; cbv zeta in H. destruct (w_kind w); try discriminate H; reflexivity.
+  - rewrite (Hadm (OUpdPal n) I H). destruct F as [A B]. rewrite A, B.
+    unfold exec in H; cbv zeta in H. destruct (w_kind w); try discriminate H; reflexivity.
+  - destruct F as [A B]. rewrite A, B.
+    unfold exec in H; cbv zeta in H. destruct (w_kind w); try discriminate H; reflexivity.
+  - destruct F as (C & A & B). unfold can_modify in C. rewrite C. rewrite A, B. destruct (w_kind w); reflexivity.
+  - destruct F as (C & A & B). unfold can_modify in C. rewrite C. rewrite A, B. destruct (w_kind w); reflexivity.
+Qed.
+End Oracle.
+End FullWl.
+
+(* ====================================================================== *)
+(* tiered whitelists: tiered / tiered-flex handlers incl. admin list (WlTiered.v) *)
+(* ====================================================================== *)
+Module FullTiered.
+Import Wl WlTiered.
+
+Section Oracle.
+Variable valid : addr -> bool.
+Variable self : addr.
+
+Theorem tiered_admin_only e w :
+  t_is_admin (e_sender e) w = false ->
+  (forall k ms, t_exec valid self e (TAdd k ms) w = Err) /\
+  (forall k ms, t_exec valid self e (TRemove k ms) w = Err) /\
+  (forall s ms, t_exec valid self e (TAddStage s ms) w = Err) /\
+  (forall k, t_exec valid self e (TRemoveStage k) w = Err) /\
+  (forall k a b c, t_exec valid self e (TUpdStage k a b c) w = Err) /\
+  (forall l, t_exec valid self e (TUpdAdmins l) w = Err) /\
+  t_exec valid self e TFreeze w = Err.
+Proof.
+  intros H. unfold t_exec, t_can_modify; cbv zeta. rewrite H, andb_false_r.
+  repeat split; intros; reflexivity.
+Qed.
+
+Theorem tiered_frozen_rejects e w :
+  t_mutable w = false ->
+  (forall l, t_exec valid self e (TUpdAdmins l) w = Err) /\ t_exec valid self e TFreeze w = Err.
+Proof. intros H. unfold t_exec, t_can_modify. rewrite H. split; intros; reflexivity. Qed.
+
+Theorem tiered_exec_admins e o w w' ms :
+  t_exec valid self e o w = Ok (w', ms) ->
+  match o with
+  | TUpdAdmins l => t_can_modify (e_sender e) w = true /\ t_admins w' = l /\ t_mutable w' = t_mutable w
+  | TFreeze => t_can_modify (e_sender e) w = true /\ t_admins w' = t_admins w /\ t_mutable w' = false
+  | _ => t_admins w' = t_admins w /\ t_mutable w' = t_mutable w
+  end.
+Proof.
+  unfold t_exec; cbv zeta. intros H. destruct o.
+  - repeat step_hyp H. inv H. cbn. auto.
+  - repeat step_hyp H. inv H. cbn. auto.
+  - repeat step_hyp H. inv H. cbn. auto.
+  - repeat step_hyp H. inv H. cbn. auto.
+  - repeat step_hyp H. inv H. cbn. auto.
+  - repeat step_hyp H; inv H; cbn; auto.
+  - bind_in H u Hu. bind_in H u2 Hu2. inv H. cbn. unfold guard in Hu. destruct (t_can_modify (e_sender e) w); [ auto | discriminate ].
+  - bind_in H u Hu. inv H. cbn. unfold guard in Hu. destruct (t_can_modify (e_sender e) w); [ auto | discriminate ].
+Qed.
+
+Theorem tiered_frozen_forever h : forall w,
+  t_mutable w = false ->
+  t_admins (t_run valid self h w) = t_admins w /\ t_mutable (t_run valid self h w) = false.
+Proof.
+  induction h as [|[e o] h IH]; intros w Hm; cbn [t_run fold_left]; [ auto | ].
+  change (t_admins (t_run valid self h (t_step valid self w (e, o))) = t_admins w /\
+          t_mutable (t_run valid self h (t_step valid self w (e, o))) = false).
+  assert (S : t_admins (t_step valid self w (e, o)) = t_admins w /\ t_mutable (t_step valid self w (e, o)) = false).
+  { unfold t_step. cbn [fst snd]. destruct (t_exec valid self e o w) as [[w' ms]|] eqn:E; [ | auto ].
+    pose proof (tiered_exec_admins _ _ _ _ _ E) as F.
+    destruct o; try (destruct F as [A B]; rewrite A, B; auto);
+      destruct F as [C _]; unfold t_can_modify in C; rewrite Hm in C; discriminate. }
+  destruct S as [SA SM]. destruct (IH _ SM) as [A B]. rewrite A, B, SA. auto.
+Qed.
+Theorem tiered_frozen_statement h w :
+  t_mutable w = false ->
+  (forall e l, t_exec valid self e (TUpdAdmins l) w = Err) /\
+  (forall e, t_exec valid self e TFreeze w = Err) /\
+  t_admins (t_run valid self h w) = t_admins w /\ t_mutable (t_run valid self h w) = false.
+Proof.
+  intros H.
+  split; [ intros e l; exact (proj1 (tiered_frozen_rejects e w H) l) | ].
+  split; [ intros e; exact (proj2 (tiered_frozen_rejects e w H)) | ].
+  exact (tiered_frozen_forever h w H).
+Qed.
+End Oracle.
+End FullTiered.
+
+(* ====================================================================== *)
+(* the stage handlers of the three tiered kinds (Stages.v)                 *)
+(* ====================================================================== *)
+(* Stages.v keeps the admin list constant (it has no UpdateAdmins / Freeze and no
+   `mutable` flag): the admin-list clauses of tiered and tiered-flex are in FullTiered
+   above, those of tiered-whitelist-merkletree stay with Part 2 (model/Auth.v). *)
+Module FullStages.
+Import Stages StagesProofs.
+
+Definition op_sender (o : op) : N :=
+  match o with
+  | AddStage s _ _ | RemoveStage s _ | UpdateStage s _ _ _ _ _ _ _ | AddMembers s _ _ | RemoveMembers s _ _ => s
+  end.
+
+(* C13's only_admins_change in the C05 wording: a non-admin's stage or member message is
+   refused, for plain, flex and Merkle tiered whitelists *)
+Theorem stages_admin_only w now o : is_admin w (op_sender o) = false -> step w now o = Err.
+Proof.
+  intros H. apply never_ok_err. intros w' E. apply only_admins_change in E.
+  unfold op_sender in H. destruct o; rewrite E in H; discriminate.
+Qed.
+
+Lemma stages_admins_constant w now o w' : step w now o = Ok w' -> w_admins w' = w_admins w.
+Proof.
+  destruct o; cbn [step]; unfold exec_add_stage, exec_remove_stage, exec_update_stage, exec_add_members, exec_remove_members;
+    intros H; repeat step_hyp H; inv H; reflexivity.
+Qed.
+End FullStages.
+
+(* ====================================================================== *)
+(* sg-splits with its cw4-group and the bank (Splits.v)                    *)
+(* ====================================================================== *)
+Module FullSplits.
+Import Splits SplitsProofs.
+
+(* distribution iff admin, or member when no admin is set (C15_entitled), and what that
+   means for the call *)
+Theorem splits_distribute_needs_entitlement w s dl :
+  can_distribute w s = false -> distribute w s dl = Err /\ step w (Distribute s dl) = Err.
+Proof.
+  intros H. assert (D : distribute w s dl = Err) by (unfold distribute; rewrite H; reflexivity).
+  split; [ exact D | ]. cbn [step]. rewrite D. reflexivity.
+Qed.
+
+Theorem splits_distribute_rejected w s dl :
+  (forall a, w_admin w = Some a -> s <> a -> step w (Distribute s dl) = Err) /\
+  (w_admin w = None -> (forall m, In m (w_members w) -> m_addr m <> s) -> step w (Distribute s dl) = Err).
+Proof.
+  split.
+  - intros a Ha Hn. apply splits_distribute_needs_entitlement. unfold can_distribute. rewrite Ha.
+    rewrite N.eqb_sym. apply neq_eqb. exact Hn.
+  - intros Ha Hm. apply splits_distribute_needs_entitlement.
+    destruct (can_distribute w s) eqn:C; [ | reflexivity ].
+    apply can_distribute_spec in C. rewrite Ha in C. destruct C as (m & Hin & Hs). exfalso. exact (Hm m Hin Hs).
+Qed.
+
+Theorem splits_update_admin_only_admin w s na :
+  w_admin w <> Some s -> step w (UpdateAdmin s na) = Err.
+Proof.
+  intros H. cbn [step]. destruct (w_admin w) as [a|]; [ | reflexivity ].
+  destruct (a =? s) eqn:E; [ apply N.eqb_eq in E; subst; contradiction H; reflexivity | reflexivity ].
+Qed.
+
+(* the admin moves only by the admin's UpdateAdmin *)
+Theorem splits_admin_frame w o w' :
+  step w o = Ok w' -> w_admin w' <> w_admin w ->
+  exists s na, o = UpdateAdmin s na /\ w_admin w = Some s /\ w_admin w' = na.
+Proof.
+  destruct o; cbn [step]; intros H Hd.
+  - inv H. contradiction Hd. reflexivity.
+  - bind_in H ms Hms. inv H. contradiction Hd. reflexivity.
+  - destruct (w_admin w) as [a|] eqn:Ea; [ | discriminate ].
+    destruct (a =? sender) eqn:E; [ | discriminate ]. apply N.eqb_eq in E. subst a. inv H.
+    exists sender, new_admin. cbn. auto.
+  - bind_in H msgs Hm. destruct (exec_sends (w_bank w) (w_self w) msgs); [ | discriminate ]. inv H.
+    contradiction Hd. reflexivity.
+Qed.
+
+Theorem splits_distribute_statement w s denoms :
+  (can_distribute w s = true <->
+     match w_admin w with
+     | Some a => a = s
+     | None => exists m, In m (w_members w) /\ m_addr m = s
+     end) /\
+  (can_distribute w s = false -> distribute w s denoms = Err /\ step w (Distribute s denoms) = Err) /\
+  (forall a, w_admin w = Some a -> s <> a -> step w (Distribute s denoms) = Err) /\
+  (w_admin w = None -> (forall m, In m (w_members w) -> m_addr m <> s) -> step w (Distribute s denoms) = Err).
+Proof.
+  exact (conj (can_distribute_spec w s)
+        (conj (splits_distribute_needs_entitlement w s denoms) (splits_distribute_rejected w s denoms))).
+Qed.
+
+(* ---- agreement with model/Auth.v ---- *)
+Definition abs (w : world) : Auth.sstate := Auth.mkSS (w_admin w) (map m_addr (w_members w)).
+
+Lemma can_distribute_abs w s : Auth.can_distribute (abs w) s = can_distribute w s.
+Proof.
+  unfold Auth.can_distribute, can_distribute, abs. cbn [Auth.sp_admin Auth.sp_members].
+  destruct (w_admin w); [ reflexivity | ].
+  unfold Auth.mem, is_member. induction (w_members w) as [|m l IH]; cbn [map existsb]; [ reflexivity | ].
+  rewrite IH. reflexivity.
+Qed.
+
+(* Distribute: Auth.v refuses exactly the senders the full model refuses on entitlement;
+   UpdateAdmin: the two models agree exactly, state included *)
+Theorem splits_agrees_distribute w s :
+  Auth.splits_step (abs w) s Auth.SDistribute = Err <-> can_distribute w s = false.
+Proof.
+  cbn [Auth.splits_step]. rewrite can_distribute_abs. destruct (can_distribute w s); split; congruence.
+Qed.
+
+Theorem splits_agrees_distribute_ok w s dl w' :
+  step w (Distribute s dl) = Ok w' -> Auth.splits_step (abs w) s Auth.SDistribute = Ok (abs w').
+Proof.
+  intros H. cbn [Auth.splits_step]. rewrite can_distribute_abs.
+  destruct (can_distribute w s) eqn:C.
+  - cbn [step] in H. bind_in H msgs Hm. destruct (exec_sends (w_bank w) (w_self w) msgs); [ | discriminate ]. inv H. reflexivity.
+  - destruct (splits_distribute_needs_entitlement w s dl C) as [_ E]. rewrite E in H. discriminate.
+Qed.
+
+Theorem splits_agrees_update_admin w s na :
+  match step w (UpdateAdmin s na), Auth.splits_step (abs w) s (Auth.SUpdateAdmin na) with
+  | Ok w', Ok a' => a' = abs w'
+  | Err, Err => True
+  | _, _ => False
+  end.
+Proof.
+  cbn [step Auth.splits_step]. unfold abs. cbn [Auth.sp_admin Auth.sp_members Auth.opt_is].
+  destruct (w_admin w) as [a|]; cbn [Auth.opt_is]; [ | exact I ].
+  destruct (a =? s); [ reflexivity | exact I ].
+Qed.
+End FullSplits.
+
+(* ====================================================================== *)
+(* factories (Params.v)                                                    *)
+(* ====================================================================== *)
+(* In Params.v the only ExecuteMsg of a factory, CreateMinter, is a function
+   `params -> request -> result unit`: it reads the parameters and has no successor
+   parameters at all; only the sudo functions return parameters.  Spelled out over mixed
+   histories: the parameters after any interleaving of governance updates and user
+   CreateMinter calls are those after the governance updates alone. *)
+Module FullFactory.
+Import Params.
+
+Inductive fcall (M R : Type) := GovUpdate (m : M) | UserCreate (r : R).
+Arguments GovUpdate {M R}. Arguments UserCreate {M R}.
+
+Definition fapply {P M R} (upd : P -> M -> result P) (create : P -> R -> result unit) (p : P) (c : fcall M R) : P :=
+  match c with
+  | GovUpdate m => match upd p m with Ok q => q | Err => p end
+  | UserCreate r => match create p r with Ok tt => p | Err => p end   (* accepted or refused: no new parameters *)
+  end.
+Definition frun {P M R} upd create (p : P) (cs : list (fcall M R)) : P := fold_left (fapply upd create) cs p.
+
+Fixpoint gov_only {M R} (cs : list (fcall M R)) : list M :=
+  match cs with
+  | [] => []
+  | GovUpdate m :: r => m :: gov_only r
+  | UserCreate _ :: r => gov_only r
+  end.
+
+Theorem params_move_only_by_sudo {P M R} (upd : P -> M -> result P) (create : P -> R -> result unit) cs :
+  forall p, frun upd create p cs = apply_seq upd p (gov_only cs).
+Proof.
+  unfold frun, apply_seq. induction cs as [|c cs IH]; intros p; cbn [fold_left gov_only]; [ reflexivity | ].
+  destruct c as [m|r]; cbn [fapply fold_left gov_only].
+  - apply IH.
+  - destruct (create p r) as [[]|]; apply IH.
+Qed.
+
+Theorem user_messages_alone_keep_params {P M R} (upd : P -> M -> result P) (create : P -> R -> result unit) (rs : list R) p :
+  frun upd create p (map UserCreate rs) = p.
+Proof.
+  rewrite params_move_only_by_sudo. assert (E : gov_only (map (@UserCreate M R) rs) = []) by (induction rs; cbn; auto).
+  rewrite E. reflexivity.
+Qed.
+
+Theorem four_factories :
+  (forall calls p, frun base_sudo base_create p calls = apply_seq base_sudo p (gov_only calls)) /\
+  (forall calls p, frun vending_sudo vending_create p calls = apply_seq vending_sudo p (gov_only calls)) /\
+  (forall calls p, frun oe_sudo oe_create p calls = apply_seq oe_sudo p (gov_only calls)) /\
+  (forall calls p, frun tm_sudo tm_create p calls = apply_seq tm_sudo p (gov_only calls)).
+Proof. repeat split; intros; apply params_move_only_by_sudo. Qed.
+End FullFactory.
